@@ -110,3 +110,96 @@ Example C01_nonvacuous_at :
   run_ops_at true 3 2 25 [Add 24 1; Add 25 2; Add 31 3; Peek; Fetch; Peek; Time; Fetch; Peek; Len]
   = [OPanic 1; OAdded; OAdded; OPeek (Some 25); OFetched 2 25; OPeek (Some 31); OTime 25; OFetched 3 31; OPeek None; OLen 0].
 Proof. vm_compute. reflexivity. Qed.
+
+
+(* ===========================================================================
+   The OTHER future event set: default_impl::FutureEventSet of
+   des/src/runtime/event/event_set.rs (BinaryHeap ordered by time only + zero
+   queue + last_event_simtime), what a des built without the `cqueue` feature
+   runs (the copy under cfg_miri! is the same text).  Model: coq/Runtime/HeapSet.v.
+   std's BinaryHeap does not say which of several equal-time entries `pop`
+   returns, so the heap is a finite bag and `pop` returns A minimum-time entry
+   chosen by an oracle; every statement below is for EVERY oracle
+   (orc : position of the operation -> candidates -> index) and every
+   cancel-free history [forallb heap_op ops = true] (the backend has no cancel).
+   C03's tie order is not promised for this backend and is not claimed. *)
+From DesVerif Require Import Runtime.HeapSet Runtime.HeapRt Runtime.HeapSetProps Runtime.Generic Runtime.Model.
+
+(* fetch returns events in non-decreasing timestamp order *)
+Theorem C01_heap_fetch_nondecreasing : forall (orc : oracle) ts ops,
+  forallb heap_op ops = true -> StronglySorted N.le (fetched_times (hp_run_ops orc ts ops)).
+Proof. exact heap_fetch_nondecreasing. Qed.
+Print Assumptions C01_heap_fetch_nondecreasing.
+
+(* every accepted add is, as a (payload, time) pair, fetched exactly once with
+   that timestamp or still pending: a multiset equation *)
+Theorem C01_heap_exactly_once : forall (orc : oracle) ts ops,
+  let r := hp_run_from orc 0 (hp_new ts) ops in
+  Permutation (accepted_adds ops (snd r)) (fetched_outs (snd r) ++ hpend_pt (fst r)).
+Proof. exact heap_exactly_once. Qed.
+Print Assumptions C01_heap_exactly_once.
+
+(* len = accepted adds - fetched *)
+Theorem C01_heap_len_formula : forall (orc : oracle) ts ops,
+  let r := hp_run_from orc 0 (hp_new ts) ops in
+  (N.to_nat (hp_len (fst r)) + length (fetched_outs (snd r)) = length (accepted_adds ops (snd r)))%nat.
+Proof. exact heap_len_formula. Qed.
+Print Assumptions C01_heap_len_formula.
+
+(* in every reachable state: peek_time is None exactly on the empty set;
+   otherwise it is the earliest pending time and the time of what fetch_next
+   returns next, whichever entry the oracle picks; peek_time changes nothing *)
+Theorem C01_heap_peek_is_next_fetch : forall (orc : oracle) ts ops,
+  let h := fst (hp_run_from orc 0 (hp_new ts) ops) in
+  (hp_peek h = None <-> hp_len h = 0) /\
+  (forall t, hp_peek h = Some t ->
+     Forall (fun e => t <= fst e) (hpend h) /\
+     forall pick, exists p h', hp_step pick h Fetch = (h', OFetched p t) /\ hlast h' = t) /\
+  (forall pick, fst (hp_step pick h Peek) = h).
+Proof. exact heap_peek_is_next_fetch. Qed.
+Print Assumptions C01_heap_peek_is_next_fetch.
+
+(* Refinement of the two-list specification up to the order among equal
+   timestamps of entries that are not in the zero queue.  [hp_trace] / [sp_trace]
+   pair every answer with "this fetch was served by the zero queue"; [agree]:
+   the flags are equal, a zero-queue fetch gives the very same answer, any
+   other answer is equal except that a fetch may return another payload with
+   the SAME time.  So: all add verdicts, len, time, peek_time answers and the
+   time of every fetch coincide position by position, the zero-queue
+   sub-sequence is identical, and (with C01_heap_exactly_once and
+   C01_exactly_once) both fetched sequences are time-sorted arrangements of the
+   same accepted events. *)
+Theorem C01_heap_refines_spec_up_to_ties : forall (orc : oracle) ts ops,
+  forallb heap_op ops = true ->
+  Forall2 agree (hp_trace orc 0 (hp_new ts) ops) (sp_trace (sp_init_at ts) ops) /\
+  map fst (hp_trace orc 0 (hp_new ts) ops) = hp_run_ops orc ts ops /\
+  map fst (sp_trace (sp_init_at ts) ops) = sp_run_ops_at ts ops.
+Proof. exact heap_refines_spec_up_to_ties. Qed.
+Print Assumptions C01_heap_refines_spec_up_to_ties.
+
+(* The runtime over this backend (coq/Runtime/Generic.v instantiated in
+   HeapRt.v; the extracted runner of `check.py C01 --part heap`), any oracle
+   (orc : dispatch number -> candidates -> index), any program, limit, pre-run
+   adds and step schedule: every loop terminates, and in the booted, the paused
+   and the final state the clock clauses of C02 hold -- see C02_holds_over_heap
+   in Properties/C02.v for the statement spelled out. *)
+Theorem C01_heap_runtime_total : forall (orc : N -> hint) S B L pre P ops,
+  exists s1 xs sf,
+    hexec_sched orc P (hboot S B L pre) ops = (Some s1, xs) /\ ~ In OFuel xs /\ hdispatch_all orc P s1 = Some sf /\
+    hgood orc S (hboot S B L pre) /\ hgood orc S s1 /\ hgood orc S sf.
+Proof. exact heap_runtime_good. Qed.
+Print Assumptions C01_heap_runtime_total.
+
+(* Non-vacuity: three entries at time 7 in the heap and one at 9; the oracle
+   "last candidate" fetches them in the order 3, 2, 1 (the specification: 1, 2,
+   3), all at time 7, then 9; an entry added at the current time 7 goes to the
+   zero queue and is served before the remaining heap entries. *)
+Example C01_heap_nonvacuous :
+  let ops := [Add 7 1; Add 7 2; Add 9 4; Add 7 3; Peek; Fetch; Add 7 5; Fetch; Fetch; Len; Fetch; Fetch; Fetch] in
+  hp_run_ops (fun _ cs => pred (length cs)) 0 ops =
+    [OAdded; OAdded; OAdded; OAdded; OPeek (Some 7); OFetched 3 7; OAdded; OFetched 5 7; OFetched 2 7; OLen 2;
+     OFetched 1 7; OFetched 4 9; OPanic 2] /\
+  sp_run_ops_at 0 ops =
+    [OAdded; OAdded; OAdded; OAdded; OPeek (Some 7); OFetched 1 7; OAdded; OFetched 5 7; OFetched 2 7; OLen 2;
+     OFetched 3 7; OFetched 4 9; OPanic 2].
+Proof. vm_compute. split; reflexivity. Qed.
